@@ -1,6 +1,7 @@
 package decoders
 
 import (
+	"bytes"
 	"context"
 	"errors"
 	"fmt"
@@ -17,6 +18,29 @@ import (
 func filePosition(file io.ReadSeeker) (position int64) {
 	position, _ = file.Seek(0, io.SeekCurrent)
 	return
+}
+
+// maxPreallocSize is the largest buffer allocated on the word of a size field alone.
+const maxPreallocSize = 1 << 20
+
+// readSized reads exactly size bytes. The size comes from the ammo file, so it is not trusted:
+// a negative size is an error and a size larger than maxPreallocSize is read incrementally,
+// so that memory grows only with the data that is really there.
+func readSized(r io.Reader, size int) (buff []byte, n int, err error) {
+	if size < 0 {
+		return nil, 0, fmt.Errorf("negative size %d", size)
+	}
+	if size <= maxPreallocSize {
+		buff = make([]byte, size)
+		n, err = io.ReadFull(r, buff)
+		return buff, n, err
+	}
+	var b bytes.Buffer
+	n64, err := io.CopyN(&b, r, int64(size))
+	if err == io.EOF {
+		err = io.ErrUnexpectedEOF
+	}
+	return b.Bytes(), int(n64), err
 }
 
 var (
